@@ -26,15 +26,15 @@ type sqlSite struct {
 }
 
 type execSite struct {
-	Site     *sqlSite
-	Const    string   // name of the SQL constant (or "" if literal)
-	Text     string   // SQL text with %s hole kept
-	HoleArgs []ast.Expr
-	StmtPar  int      // index of the *sql.Stmt parameter the call runs on (-1: runs on tx directly)
-	Args     []string // normalised operands, in call order (variadic slices expanded)
-	ArgPos   []token.Pos
-	Scan     []string // record field names scanned, in order (selects)
-	ScanPos  token.Pos
+	Site      *sqlSite
+	Const     string // name of the SQL constant (or "" if literal)
+	Text      string // SQL text with %s hole kept
+	HoleArgs  []ast.Expr
+	StmtPar   int      // index of the *sql.Stmt parameter the call runs on (-1: runs on tx directly)
+	Args      []string // normalised operands, in call order (variadic slices expanded)
+	ArgPos    []token.Pos
+	Scan      []string // record field names scanned, in order (selects)
+	ScanPos   token.Pos
 	Undecided []string
 }
 
@@ -512,45 +512,45 @@ func (b *backend) extractHandler(p *Program, h *handler) {
 		}
 	}
 	for _, scanBody := range scanBodies {
-	ast.Inspect(scanBody, func(n ast.Node) bool {
-		call, ok := n.(*ast.CallExpr)
-		if !ok {
-			return true
-		}
-		fn, ok := calleeOf(info, call).(*types.Func)
-		if !ok || fn.Pkg() == nil || fn.Pkg().Path() != "database/sql" || fn.Name() != "Scan" {
-			return true
-		}
-		var fields []string
-		for _, a := range call.Args {
-			f := "?" + exprString(a)
-			if u, ok := ast.Unparen(a).(*ast.UnaryExpr); ok && u.Op == token.AND {
-				if se, ok := ast.Unparen(u.X).(*ast.SelectorExpr); ok {
-					f = se.Sel.Name
+		ast.Inspect(scanBody, func(n ast.Node) bool {
+			call, ok := n.(*ast.CallExpr)
+			if !ok {
+				return true
+			}
+			fn, ok := calleeOf(info, call).(*types.Func)
+			if !ok || fn.Pkg() == nil || fn.Pkg().Path() != "database/sql" || fn.Name() != "Scan" {
+				return true
+			}
+			var fields []string
+			for _, a := range call.Args {
+				f := "?" + exprString(a)
+				if u, ok := ast.Unparen(a).(*ast.UnaryExpr); ok && u.Op == token.AND {
+					if se, ok := ast.Unparen(u.X).(*ast.SelectorExpr); ok {
+						f = se.Sel.Name
+					}
+				}
+				fields = append(fields, f)
+			}
+			// the query site of this handler (handlers have exactly one query)
+			var q *execSite
+			for _, es := range h.Execs {
+				if strings.HasPrefix(es.Site.Method, "Query") {
+					if q != nil {
+						q = nil
+						break
+					}
+					q = es
 				}
 			}
-			fields = append(fields, f)
-		}
-		// the query site of this handler (handlers have exactly one query)
-		var q *execSite
-		for _, es := range h.Execs {
-			if strings.HasPrefix(es.Site.Method, "Query") {
-				if q != nil {
-					q = nil
-					break
+			if q != nil {
+				if q.Scan != nil {
+					q.Undecided = append(q.Undecided, "more than one Scan call")
 				}
-				q = es
+				q.Scan = fields
+				q.ScanPos = call.Pos()
 			}
-		}
-		if q != nil {
-			if q.Scan != nil {
-				q.Undecided = append(q.Undecided, "more than one Scan call")
-			}
-			q.Scan = fields
-			q.ScanPos = call.Pos()
-		}
-		return true
-	})
+			return true
+		})
 	}
 	sort.SliceStable(h.Execs, func(i, j int) bool { return h.Execs[i].Site.Pos < h.Execs[j].Site.Pos })
 }
